@@ -99,9 +99,16 @@ func NewParameters(rlweParams rlwe.Parameters, t uint64) (p Parameters, err erro
 	nbQiMul := int(math.Ceil(float64(rlweParams.RingQ().ModulusAtLevel[rlweParams.MaxLevel()].BitLen()+rlweParams.LogN()) / 61.0))
 	/* #nosec G115 -- NthRoot cannot be negative */
 	g := ring.NewNTTFriendlyPrimesGenerator(61, uint64(rlweParams.NthRoot()))
-	primes, err := g.NextDownstreamPrimes(nbQiMul)
-	if err != nil {
-		return Parameters{}, err
+	// The extended basis must be coprime to Q: skips the primes that Q already contains.
+	primes := make([]uint64, 0, nbQiMul)
+	for len(primes) < nbQiMul {
+		prime, err := g.NextDownstreamPrime()
+		if err != nil {
+			return Parameters{}, err
+		}
+		if !slices.Contains(rlweParams.Q(), prime) {
+			primes = append(primes, prime)
+		}
 	}
 	if ringQMul, err = ring.NewRing(rlweParams.N(), primes); err != nil {
 		return Parameters{}, err
